@@ -141,17 +141,19 @@ func sameAS(a, b []string) bool {
 
 type capCount struct{ def, defIP, defAS, c2, c2IP, c2AS, may, mayIP, mayAS int }
 
-// count tallies the reservations of peers other than `self` (and not in `skip`) over [t0,t1]:
+// count tallies the reservations of peers other than `self` over [t0,t1] (peers in `skip` disconnect concurrently):
 // def = certainly live and counted, c2 = certainly live but a refresh was refused, may = possibly
 // still known to the relay. ips are the possible source IPs of the request being judged.
 func (m *model) count(self int, ips []string, t0, t1 time.Duration, skip map[int]bool) capCount {
 	var c capCount
 	for _, q := range m.keys() {
-		if q == self || skip[q] {
+		if q == self {
 			continue
 		}
 		r := m.rsv[q]
-		live := r.sure && t1 < r.lo
+		// a peer that disconnects in the same concurrent batch may leave before OR after the request is handled:
+		// it cannot be relied on to be counted (def, c2) but may well still be counted (may)
+		live := r.sure && t1 < r.lo && !skip[q]
 		onIP := len(r.ips) == 1 && len(ips) == 1 && r.ips[0] == ips[0]
 		onAS := len(r.ips) == 1 && len(ips) == 1 && asnOf(ips[0]) != 0 && asnOf(r.ips[0]) == asnOf(ips[0])
 		if live && r.counted == cntYes {
